@@ -650,6 +650,7 @@ extern  void    ADFI_read_node_header(
 extern  void    ADFI_read_sub_node_table(
             const unsigned int file_index,
             const struct DISK_POINTER *block_offset,
+            const unsigned int num_entries,
             struct SUB_NODE_TABLE_ENTRY sub_node_table[],
             int *error_return ) ;
 
